@@ -1376,6 +1376,14 @@ func (in *Interp) builtin(b *ssa.Builtin, args []Value, cc *ssa.CallCommon, site
 		}
 		return args[0]
 	case "close":
+		// channels are not modelled beyond their closed flag (observable through zzChanClosed)
+		if ch, ok := args[0].(*ChanV); ok && ch != nil {
+			if ch.closed {
+				in.end("panic", "close of closed channel")
+			}
+			ch.closed = true
+		}
+		in.events = append(in.events, "chan-close")
 		return nil
 	case "recover":
 		return IfaceV{}
